@@ -117,14 +117,20 @@ def header_problems(value, suggested, ext):
     return probs
 
 
-def make_after_step(rng):
+# compatibility characters whose NFKD form IS one of the separators the header must not contain
+# (fullwidth / small-form / Greek question mark), one class each: swept deterministically
+COMPAT_FILENAMES = ["Tom\uff1bJerry", "a\uff0cb", "say \uff02hi\uff02", "time\uff1a10", "it\uff07s", "x\ufe54y", "x\ufe50y",
+                    "\u037e", "\u0391\u037e\u0392", "\u2025dots", "\ufe55colon", "A\u00a0;\u2003B"]
+
+
+def make_after_step(rng, force_fn=None):
     from mwlib.core import nserve
     app = nserve.Application()
     state = {"fn": {}}
 
     def result_hook(op):
-        kind = rng.randrange(4)
-        fn = FILENAMES[rng.randrange(len(FILENAMES))]
+        kind = rng.randrange(4) if force_fn is None else 2
+        fn = FILENAMES[rng.randrange(len(FILENAMES))] if force_fn is None else force_fn[0]
         if kind == 0:
             res = {"url": "http://x/y", "size": 7}
         elif kind == 1:
@@ -199,6 +205,33 @@ def concretise(hist):
 
 class RealIds:
     """The driver talks to the server with the real job ids; projections map them back."""
+
+
+def _to_real_ids(hist):
+    h2 = json.loads(json.dumps(hist))
+    for st in h2:
+        if "id" in st["last"]:
+            st["last"]["id"] = REAL_ID[st["last"]["id"]]
+        st["st"]["bound"] = {REAL_ID[k]: v for k, v in st["st"]["bound"].items()}
+        for j in st["st"]["jobs"]:
+            j["id"] = REAL_ID[j["id"]]
+        st["st"]["status"] = {w: st["st"]["status"][w] for w in WRITERS}
+    return h2
+
+
+def filename_sweep(hist):
+    """Replay ONE behaviour in which a render job finishes successfully once per file-name class
+    (every class of FILENAMES and COMPAT_FILENAMES as the suggested file name): the
+    Content-Disposition predicate is evaluated for each class on every run, not only for the
+    classes the random draws of the main replay happen to hit."""
+    from harness import qsreplay
+    out = []
+    for fn in FILENAMES + COMPAT_FILENAMES:
+        after_step, result_hook, state = make_after_step(random.Random(0), force_fn=[fn])
+        r = qsreplay.replay_one(_to_real_ids(hist), workers=WORKERS, clients=["k1"], channels=CHANNELS,
+                                after_step=after_step, result_hook=result_hook)
+        out.append((fn, r, sorted(state.get("headers", []))))
+    return out
 
 
 def _worker(args):
@@ -283,9 +316,27 @@ def run(ctx):
         for st in h:
             for w in WRITERS:
                 states_seen[st["st"]["status"][w]["state"]] += 1
+    # deterministic sweep of the file-name classes over one behaviour with a successful render job
+    cands = [h for h in hists if any(st["st"]["status"][w]["state"] == "finished" for st in h for w in WRITERS)]
+    if not cands:
+        ctx.machinery("no replayed behaviour reaches a finished render job: the file-name sweep has nothing to run on")
+    swept = 0
+    for fn, r, hdrs in filename_sweep(min(cands, key=len)):
+        if r.get("machinery"):
+            ctx.machinery("file-name sweep: %s" % r["machinery"])
+        if not r.get("ok"):
+            ctx.violation("render status differs: %s" % "; ".join(r.get("differs", [r.get("problem", "?")])),
+                          "do_render_status disagrees with RenderStatus.tla in the file-name sweep (suggested file name %r) at step %s"
+                          % (fn, r.get("step")), {"suggested_filename": fn, "disagreement": r})
+            continue
+        if not hdrs and not r.get("skipped"):
+            ctx.machinery("file-name sweep: no Content-Disposition header was produced for %r" % (fn,))
+        headers.update(hdrs)
+        swept += 1
     ctx.cover(traces_validated_against_impl=agreed, transitions=steps)
     ctx.set_cover(replayed_behaviours=agreed, replayed_steps=steps, status_values_in_replayed_states=states_seen,
-                  distinct_content_disposition_headers_checked=len(headers), filename_classes=len(FILENAMES))
+                  distinct_content_disposition_headers_checked=len(headers), filename_classes=len(FILENAMES) + len(COMPAT_FILENAMES),
+                  filename_classes_swept=swept)
     ctx.sample({"kind": "TLC behaviour replayed (actions)", "actions": [x["last"] for x in hists[0]]})
     ctx.sample({"kind": "Content-Disposition headers produced by the real code", "headers": sorted(headers)[:8]})
     # ---- beyond the listed property: the render request end to end (spec/RenderFlow.tla)
